@@ -2,7 +2,8 @@
 prints one encoded case per job.   stdin: {"jobs": [...]}
 
 job kinds
-  I  {idx, par [c1h, c2h, Lh, Gh] (halves), dtype, sh, kw (bool), intpar (bool), cells [[band values | "nan"]...]}
+  I  {idx, par [c1h, c2h, Lh, Gh] (halves), dtype | dtypes (per band), layouts (per band: C F T S R), dims,
+      sh, kw (False | True | "perm"), intpar | parmode (float | int | np64), dirty, cells [[band values | "nan"]...]}
      the raster holds cells * 2^sh in `dtype`; bands are passed in signature order (positionally, or by keyword)
   M  {idx, rel "swap"|"scale"|"range", k, dtype, a [...], b [...]}   arbitrary float bands of a two-band index
   T  {red [...], green [...], blue [...], nodata, dtype, W}           true_color
@@ -46,7 +47,22 @@ def pnum(h, as_int):
     return h / 2.0
 
 
-def raster(vals, dtype, sh):
+def relayout(a, layout):
+    """the same values in another memory layout: C, F(ortran), T(ransposed view), S(trided view), R(eversed view)"""
+    if layout == "F":
+        return np.asfortranarray(a)
+    if layout == "T":
+        return np.ascontiguousarray(a.T).T
+    if layout == "S":
+        big = np.zeros((2 * a.shape[0] + 1, 3 * a.shape[1] + 2), dtype=a.dtype)
+        big[1::2, 2::3] = a
+        return big[1::2, 2::3]
+    if layout == "R":
+        return np.ascontiguousarray(a[::-1, ::-1])[::-1, ::-1]
+    return a
+
+
+def raster(vals, dtype, sh, layout="C", dims=("y", "x"), dirty=False):
     n = len(vals)
     rows = (n + COLS - 1) // COLS
     a = np.zeros(rows * COLS, dtype=np.float64)
@@ -54,27 +70,34 @@ def raster(vals, dtype, sh):
         a[i] = np.nan if v == "nan" else float(v)
     if sh:
         a = a * (2.0 ** sh)
-    if dtype.startswith("uint") and dtype == "uint64":
-        out = np.array([0 if np.isnan(v) else int(v) for v in a], dtype=np.uint64)
-    elif dtype.startswith(("int", "uint")):
-        out = np.array([0 if np.isnan(v) else int(v) for v in a], dtype=dtype)
+    if dtype.startswith(("int", "uint")):
+        # exact Python integers; dirty: +1 on the non-zero cells - not representable in float32 at this magnitude
+        # (the cast rounds it away), so any arithmetic done BEFORE the cast would see a different value
+        out = np.array([0 if np.isnan(v) else int(v) + (1 if dirty and v != 0 else 0) for v in a], dtype=dtype)
     else:
+        if dirty and dtype == "float64":
+            a = a * (1.0 + 1e-9)            # float64 values that are not float32 numbers; the cast gives the tuple back
         out = a.astype(dtype)
-    return xr.DataArray(out.reshape(rows, COLS), dims=["y", "x"])
+    return xr.DataArray(relayout(out.reshape(rows, COLS), layout), dims=list(dims))
 
 
-def call(idx, arrays, par, kw, intpar):
+def call(idx, arrays, par, kw, parmode):
     fn = getattr(M, idx)
+
+    def p(h):
+        v = pnum(h, parmode == "int")
+        return np.float64(v) if parmode == "np64" else v
     extra = {}
     if idx == "evi":
-        extra = dict(c1=pnum(par[0], intpar), c2=pnum(par[1], intpar), soil_factor=pnum(par[2], intpar),
-                     gain=pnum(par[3], intpar))
+        extra = dict(c1=p(par[0]), c2=p(par[1]), soil_factor=p(par[2]), gain=p(par[3]))
     elif idx == "savi":
-        extra = dict(soil_factor=pnum(par[2], intpar))
+        extra = dict(soil_factor=p(par[2]))
     if kw:
-        args = {name + "_agg": arr for name, arr in zip(SIG[idx], arrays)}
-        args.update(extra)
-        return fn(**args)
+        # keyword call; "perm": the keywords in reversed order (binding must go by name)
+        items = [(name + "_agg", arr) for name, arr in zip(SIG[idx], arrays)] + list(extra.items())
+        if kw == "perm":
+            items = items[::-1]
+        return fn(**dict(items))
     return fn(*arrays, **extra)
 
 
@@ -104,10 +127,14 @@ def case_I(j):
     idx, par, sh = j["idx"], j["par"], j["sh"]
     cells = j["cells"]
     ar = len(SIG[idx])
-    arrays = [raster([c[k] for c in cells], j["dtype"], sh) for k in range(ar)]
-    out = call(idx, arrays, par, j.get("kw", False), j.get("intpar", False))
-    o = np.asarray(out.data)
-    shape_ok = int(o.shape == arrays[0].shape and o.dtype == np.float32)
+    dts = j.get("dtypes") or [j["dtype"]] * ar              # one dtype / layout per band
+    lays = j.get("layouts") or ["C"] * ar
+    arrays = [raster([c[k] for c in cells], dts[k], sh, lays[k], j.get("dims") or ("y", "x"), j.get("dirty", False))
+              for k in range(ar)]
+    parmode = j.get("parmode") or ("int" if j.get("intpar") else "float")
+    out = call(idx, arrays, par, j.get("kw", False), parmode)
+    o = np.ascontiguousarray(np.asarray(out.data))
+    shape_ok = int(o.shape == arrays[0].shape and o.dtype == np.float32 and tuple(out.dims) == tuple(arrays[0].dims))
     flat = o.reshape(-1)[:len(cells)] if shape_ok else []
     return {"kind": "I", "idx": idx, "par": par, "sh": sh, "shape_ok": shape_ok,
             "bs": [[NAN if v == "nan" else int(v) for v in c] for c in cells],
@@ -170,6 +197,9 @@ def case_T(j):
     kw = {}
     if j.get("nodata") is not None:
         kw["nodata"] = j["nodata"]
+    for k in ("c", "th"):
+        if j.get(k) is not None:
+            kw[k] = j[k]
     out = M.true_color(mk(j["red"]), mk(j["green"]), mk(j["blue"]), **kw)
     o = np.asarray(out.data)
     shape_ok = int(o.shape == (rows, W, 4))
